@@ -27,7 +27,13 @@ void blast();
 #ifndef N
 #define N 8
 #endif
+#ifdef LIMIT            /* parametric length-limit obligation: see plan.py (addrparse_limit) */
+#define LIP "lhlhlhlhlhlh"
+#define LIPLEN 12
+#else
 #define LIP "lh"
+#define LIPLEN 2
+#endif
 
 char arg[N + 1];
 unsigned char lipok, ipme_yes;
@@ -101,13 +107,15 @@ void vmain(void)
   arg[0] = '<'; arg[1] = 'x'; arg[2] = '@'; arg[3] = '[';
   arg[5] = '.'; arg[7] = '.'; arg[9] = '.';      /* arg[4,6,8,10] and arg[11..13] stay symbolic */
 #endif
-  liphostok = lipok; liphost.s = LIP; liphost.len = 2; liphost.a = 3;
+  liphostok = lipok; liphost.s = LIP; liphost.len = LIPLEN; liphost.a = LIPLEN + 1;
   stralloc_ready(&addr, 1);
 
   r = addrparse(arg);
 
   ref_parse();
+#ifndef LIMIT
   CHECK(r == 1, "C08: an argument of a few bytes is never 'too long'");
+#endif
   CHECK(addr.len >= 1 && addr.s[addr.len - 1] == 0, "C08: parsed address is NUL-terminated and len counts the NUL");
   for (i = 0; i + 1 < N + 4; ++i) { if (i + 1 >= addr.len) break; CHECK(addr.s[i] != 0, "C08: no NUL inside the parsed address"); }
 
@@ -132,9 +140,15 @@ void vmain(void)
       if (!big) CHECK(ipme_arg[0] == oct[0] && ipme_arg[1] == oct[1] && ipme_arg[2] == oct[2] && ipme_arg[3] == oct[3], "C08: ... with its four octets");
       if (ipme_yes) {
         subst = 1;
-        CHECK(addr.len == at + 1 + 2 + 1, "C08: a local IP-literal domain is replaced by localiphost (length)");
+        CHECK(addr.len == at + 1 + LIPLEN + 1, "C08: a local IP-literal domain is replaced by localiphost (length)");
         for (i = 0; i < N; ++i) { if (i > at || i + 1 >= addr.len) break; CHECK(addr.s[i] == want[i], "C08: mailbox and '@' are kept"); }
-        CHECK(addr.len == at + 4 && addr.s[at + 1] == 'l' && addr.s[at + 2] == 'h', "C08: a local IP-literal domain is replaced by localiphost before the rcpthosts check");
+        CHECK(addr.len == at + 2 + LIPLEN && addr.s[at + 1] == 'l' && addr.s[at + 2] == 'h', "C08: a local IP-literal domain is replaced by localiphost before the rcpthosts check");
+#ifdef LIMIT
+        /* the length limit (900 in the real code, LIMIT in this regenerated copy) applies to the
+         * address that will be checked and queued, i.e. AFTER the substitution */
+        CHECK((r == 0) == (addr.len > LIMIT), "C08: an address is refused iff the address as rewritten exceeds the length limit");
+        if (r == 0) WITNESS("too_long_after_substitution");
+#endif
         WITNESS("localiphost_substituted");
       } else WITNESS("literal_not_ours");
     } else {
@@ -144,6 +158,9 @@ void vmain(void)
   }
 #else
   CHECK(ipme_calls == 0, "no IP literal fits into N bytes");
+#endif
+#ifdef LIMIT
+  if (!subst) CHECK((r == 0) == (addr.len > LIMIT), "C08: an address is refused iff it exceeds the length limit");
 #endif
   if (!subst) {
     CHECK(addr.len == wn + 1, "C08: parsed address has the documented form (length)");
